@@ -41,6 +41,7 @@ type Contract struct {
 	Key       string
 	Requires  []Clause
 	Ensures   []Clause
+	Universe  map[string]string // parameter -> generator expression for the bounded run
 	AssumeIface map[int]string // interface-level ensures clauses this implementation does not prove (index -> reason)
 	EnsuresB  []Clause // evaluated natively on bounded universes only (never proved, never assumed)
 	Loops     map[string]*LoopSpec
@@ -131,6 +132,12 @@ func parseContractsP(path string, into map[string]*Contract, p *Program) error {
 			cur.Requires = append(cur.Requires, Clause{Text: rest, Line: ln + 1})
 		case "ensures":
 			cur.Ensures = append(cur.Ensures, Clause{Text: rest, Line: ln + 1, Tag: tag})
+		case "universe":
+			pn, ex := splitWord(rest)
+			if cur.Universe == nil {
+				cur.Universe = map[string]string{}
+			}
+			cur.Universe[pn] = ex
 		case "assume_iface":
 			// assume_iface <clause index> <reason>: this implementation leaves the interface clause to the bounded check
 			w2, r2 := splitWord(rest)
